@@ -347,6 +347,20 @@ def check_behaviour(acc, case):
     for i in issues[:1]:
         acc.violation(f"{i.kind}:{name}", f"{name} inputs={i.inputs}: {i.kind}: {i.detail[:300]}", dict(case, kind2="behaviour", inputs=i.inputs))
         return
+    # every single branching-solver answer replaced by `unknown`: the inputs satisfying the assumption must still be covered, and no
+    # path may claim anything the EVM does not do
+    for k in range(ncalls):
+        hdriver.check_seam.start(force_unknown=(k,))
+        try:
+            res_k = hdriver.run_halmos(spec)
+        finally:
+            hdriver.check_seam.start(force_unknown=())
+        acc.count("deviation_runs")
+        issues, stats = progcheck.check_program(spec, BGRID, want_coverage=True, results=res_k)
+        acc.count("pairs", stats["pairs"])
+        for i in issues[:1]:
+            acc.violation(f"{i.kind}:unknown:{name}", f"{name} with branching-solver answer #{k} = unknown, inputs={i.inputs}: {i.kind}: {i.detail[:300]}", dict(case, kind2="behaviour", inputs=i.inputs, unknown_at=k))
+            return
     acc.state(name)
 
 
